@@ -77,7 +77,7 @@ def _loop (ctx, repo, f, L):
     a1 = norm(c.args[1])
     good = (a1 == L.cur) if L.cur else (a1 == '0')
     ctx.ob('R-AGREE', f, "decoding starts at the cursor", good, "decode(%s, %s)" % (L.buf, a1), (mod, c), 'D3')
-    tbl = norm(c.func.value); idx = norm(c.func.slice)
+    sub_ = L.decode_sub[id(c)]; tbl = norm(sub_.value); idx = norm(sub_.slice)
     tdef = q.single_def(f.node, idx)
     good = tdef is not None and norm(tdef) == '%s[%s]' % (L.buf, ('%s + 1' % L.cur) if L.cur else '1')
     if tdef is None:
@@ -125,6 +125,32 @@ def _loop (ctx, repo, f, L):
     good = norm(c.args[-1]) == L.msgvar or L.msgvar in [norm(a) for a in c.args]
     dec_dom = any(g.dominates(d[0], n) for d in L.decode)
     ctx.ob('R-ORDER', f, "the delivered object is the one just decoded", good and dec_dom, "decode dominates delivery of %s" % L.msgvar, (mod, c), 'D5')
+  # a delivery that raised must not end the loop: the complete messages behind it in the buffer are still owed
+  # (decided with the error handler's summary for the constant reason it is called with)
+  ehf = f.cls.find_method('_error_handler') if f.cls is not None else None
+  if ehf is not None:
+    for n in g.nodes_with_call(lambda c: call_name(c) == '_error_handler'):
+      c = [c for c in q.node_calls(n) if call_name(c) == '_error_handler'][0]
+      hs = [h for h in g.nodes if h.kind == 'handler' and g.dominates(h, n) and any(g.dominates(d, h) or d in g.try_of.get(h, ()) or True for d in dn)]
+      hs = [h for h in hs if any(d in g.loop_body_nodes(L.head) for d in dn)]
+      if not hs or not c.args: continue
+      cname = norm(c.args[0]).split('.')[-1]
+      cc, cv = f.cls.find_assign(cname)
+      val = repo.try_const(mod, cv, f.cls) if cv is not None else None
+      if val is None: continue
+      summ = framing.return_summary(repo, ehf, q.Env({ehf.params[1]: val}))
+      if len(summ) != 1 or list(summ)[0] not in ('None', 'True', 'False'): continue
+      const = {'None': None, 'True': True, 'False': False}[list(summ)[0]]
+      if const is False: continue            # the handler always closes: leaving the loop is right
+      def hook (call, env=None, const=const):
+        return (True, const) if call_name(call) == '_error_handler' else (False, None)
+      start = hs[-1]
+      paths = q.paths_under(repo, mod, g, q.Env({}, [], hook), start, [L.head, L.after, g.exit], f.cls, limit=100)
+      leaving = [p_ for p_, e_ in paths if p_[-1] is not L.head and n in p_]
+      ctx.ob('R-EFFECT', f, "after a handler exception (reason %s) the loop goes on with the next message" % cname, not leaving,
+             "every path from the exception handler returns to the loop head (handler result is always %s)" % const if not leaving else
+             "_error_handler(%s) always returns %s, and with that result the path through line(s) %s leaves the read loop: complete messages that follow a failing one in the same read stay undelivered until more bytes arrive" % (
+               cname, const, sorted(set(x.line for x in leaving[0] if x.line))[-4:]), (mod, c), 'D5')
   # ---- D6 residual ---------------------------------------------------------------------------
   if L.cur:
     keep = [(v, st) for v, st in L.buf_defs if isinstance(v, ast.Subscript) and isinstance(v.slice, ast.Slice) and v.slice.lower is not None and norm(v.slice.lower) == L.cur and v.slice.upper is None and norm(v.value) == L.buf]
@@ -170,6 +196,19 @@ def _reach_avoid (g, start, avoid, restrict):
       seen.add(m); st.append(m)
   return seen
 
+def _emptied_when_all_consumed (f, st, buf, count=None):
+  """`buf = b''` is a prefix drop when a dominating guard says the consumed count equals len(buf)"""
+  v = st.value
+  if not (isinstance(v, ast.Constant) and v.value == b''): return False
+  g = q.cfg_of(f); n = q.enclosing_stmt_node(g, st)
+  if n is None: return False
+  for l, o, r, b in q.guard_facts(g, n):
+    if r is None or o != '==': continue
+    L, R = norm(l), norm(r)
+    for a_, b_ in ((L, R), (R, L)):
+      if b_ == 'len(%s)' % buf and (count is None or a_ == count): return True
+  return False
+
 def _buffers (ctx, repo):
   """D1: who writes the reassembly buffers and how"""
   # controller: Connection.buf
@@ -189,7 +228,7 @@ def _buffers (ctx, repo):
       elif f.name == '__init__':
         ctx.ob('R-OWN', f, "buffer starts empty", isinstance(v, ast.Constant) and v.value == b'', norm(st), (mod, st), 'D1')
       else:
-        good = isinstance(v, ast.Subscript) and norm(v.value) == 'self.buf' and isinstance(v.slice, ast.Slice) and v.slice.upper is None and v.slice.lower is not None
+        good = (isinstance(v, ast.Subscript) and norm(v.value) == 'self.buf' and isinstance(v.slice, ast.Slice) and v.slice.upper is None and v.slice.lower is not None) or _emptied_when_all_consumed(f, st, 'self.buf')
         ctx.ob('R-OWN', f, "`%s` drops a prefix only" % norm(st), good, "suffix slice" if good else "%s rewrites the reassembly buffer (not append / prefix-drop): bytes are lost, duplicated or reordered" % f.qual, (mod, st), 'D1')
   ctx.floor('controller buffer writers', n, 3)
   iow = repo.cls('lib.ioworker', 'IOWorker'); iom = iow.module
@@ -205,12 +244,13 @@ def _buffers (ctx, repo):
         elif f.name == '__init__':
           ctx.ob('R-OWN', f, "buffer starts empty", isinstance(v, ast.Constant) and v.value == b'', norm(st), (iom, st), 'D1')
         else:
-          good = isinstance(v, ast.Subscript) and norm(v.value) == 'self.receive_buf' and isinstance(v.slice, ast.Slice) and v.slice.upper is None and v.slice.lower is not None
+          good = (isinstance(v, ast.Subscript) and norm(v.value) == 'self.receive_buf' and isinstance(v.slice, ast.Slice) and v.slice.upper is None and v.slice.lower is not None) or _emptied_when_all_consumed(f, st, 'self.receive_buf')
           ctx.ob('R-OWN', f, "`%s` drops a prefix only" % norm(st), good, "suffix slice" if good else "%s rewrites the receive buffer" % f.qual, (iom, st), 'D1')
   ctx.floor('switch-side buffer writers', n, 4)
   crb = q.find_method(repo, iow, 'consume_receive_buf', 'C02'); ctx.analysed(crb)
   st = [s_ for t, v, s_, k in q.stores_in(crb.node) if norm(t) == 'self.receive_buf']
-  good = len(st) == 1 and norm(st[0].value) == 'self.receive_buf[%s:]' % crb.params[1]
+  good = bool(st) and all(norm(x.value) == 'self.receive_buf[%s:]' % crb.params[1] or _emptied_when_all_consumed(crb, x, 'self.receive_buf', crb.params[1]) for x in st) \
+         and any(norm(x.value) == 'self.receive_buf[%s:]' % crb.params[1] for x in st)
   ctx.ob('R-AGREE', crb, "consume drops exactly the requested number of bytes from the head", good, norm(st[0]) if st else "?", crb, 'D1')
   pk = q.find_method(repo, iow, 'peek', 'C02'); ctx.analysed(pk)
   rv = [norm(r.value) for r in q.returns_of(pk.node)]
